@@ -8,6 +8,11 @@ def units(tier):
     us += [Unit(L.ReleasedSpace, {'variant': 'plain'}), Unit(L.ReleasedSpace, {'variant': 'links'}), Unit(L.ReleasedSpace, {'variant': 'eltorito-twice'})]
     for nl in (1, 2, 3):
         us.append(Unit(CE.SetInode, {'nlinks': nl, 'anchors': 2}))
+    # random edit histories with hard links in both namespaces (added, removed one name at a time, rm_file taking all names)
+    from contracts import fidelity as F
+    for s in F.random_names(tier, ['joliet', 'rr110-joliet', 'plain'], 1, 12):
+        us.append(Unit(F.Mastered, {'script': s}))
+        us.append(Unit(F.Reopened, {'script': s, 'edit': False}))
     return us
 
 
